@@ -756,6 +756,9 @@ func (in *Interp) applyCall(x *ast.CallExpr, callee *types.Func, recvExpr ast.Ex
 			return []evalRes{{st, Val{K: kNonNil}}}
 		}
 	}
+	if in.mirror && in.mirrorFns[callee] && len(x.Args) == 1 && in.isDispatchedByte(x.Args[0], st) {
+		st.mirrored = true
+	}
 	if callee.Name() == "AsNum" || callee.Name() == "AsNode" {
 		return []evalRes{{st, Val{K: kTop, S: "number"}}}
 	}
